@@ -271,6 +271,15 @@ def expand(prog: Program, fn: Func, e: ast.expr, **kw) -> List[ast.expr]:
     return Expander(prog, fn, **kw).expand(e)
 
 
+def expand1(prog: Program, fn: Func, e: ast.expr, levels: int = 1) -> List[ast.expr]:
+    """Alias expansion limited to `levels` steps (1 = replace each local name by its definition once).
+    Always includes the original expression."""
+    out = [e]
+    for lv in range(levels):
+        out += Expander(prog, fn, max_depth=lv).expand(e)
+    return Expander._dedup(out)
+
+
 def expand_txt(prog: Program, fn: Func, e: ast.expr) -> List[str]:
     return [norm(x) for x in expand(prog, fn, e)]
 
